@@ -544,3 +544,62 @@ def r20h(model: Model, rr: RuleResult):
         rr.ok("FontConfig.output_format is the suffix of output_file")
     else:
         rr.bad(model.mod("config"), ofmt, "FontConfig.output_format is no longer the suffix of output_file", construct="FontConfig.output_format")
+
+
+@RULES.rule("C20", "R20i", "every per-source intermediate is named by _dest_for_src in its own scope; the generated fea / glyphmap / config / parts files are edge variables", floor=5)
+def r20i(model: Model, rr: RuleResult):
+    mod = model.mod("nanoemoji")
+    dest_fns = ["picosvg_dest", "bitmap_dest", "pngquant_dest", "zopflipng_dest"]
+    for fn in dest_fns:
+        fi = mod.func(fn)
+        cfg = cfg_of(fi)
+        rets = [st for st in walk_body(fi) if isinstance(st, ast.Return) and st.value is not None]
+        for st in rets:
+            v = st.value
+            if isinstance(v, ast.Call) and callee_tail(v) == "_dest_for_src" and v.args and norm(v.args[0]) == fn:
+                rr.ok(f"{fn} -> _dest_for_src({fn}, ...): same-named sources are told apart inside this stage's own registry")
+                continue
+            _, exprs = expr_closure(cfg, cfg.node_for(st), v)
+            helpers = [c for e in exprs for c in ast.walk(e) if isinstance(c, ast.Call) and isinstance(c.func, ast.Name) and c.func.id in mod.functions and c.func.id not in ("rel_build",)]
+            lossy = []
+            for e in exprs + [b for h in helpers for b in mod.functions[h.func.id].body]:
+                for n in ast.walk(e):
+                    if isinstance(n, ast.Attribute) and n.attr in ("name", "stem") and any(isinstance(c, ast.Call) and callee_tail(c).endswith("_dest") for c in ast.walk(n)):
+                        lossy.append(n)
+            if lossy:
+                rr.bad(fi, st, f"{fn} names its output after {short(lossy[0])}: `.name` drops the 1/, 2/ sub-directory that keeps same-named sources of different "
+                       f"directories (or configurations) apart, so their compressed bitmaps collide and the first configuration's artwork is used for all",
+                       construct=f"{fn}: dest via {short(lossy[0])}")
+            else:
+                rr.bad_shape(fi, st, f"{fn} does not return _dest_for_src({fn}, ...)", construct=f"{fn}: {short(st, 60)}")
+    vf = mod.func("_variables_for_font_build")
+    from ..paintmodel import returned_dict
+    d = returned_dict(vf)
+    if d is None:
+        raise AnalysisError("_variables_for_font_build: returned dict not found")
+    keys = {k.value for k in d.keys if isinstance(k, ast.Constant)}
+    need = {"config_file", "fea_file", "glyphmap_file", "part_file"}
+    if need <= keys:
+        rr.ok("font edges receive config, fea, glyph map and parts file as variables (and thereby as implicit inputs)")
+    else:
+        rr.bad_shape(vf, vf.node, f"font edges no longer receive {sorted(need - keys)} as a variable: the file stops being a declared input of the font, so ninja may run the font "
+                     f"step before the step that writes it, or keep a font built from an older one", construct=f"_variables_for_font_build: missing {sorted(need - keys)}")
+
+
+@RULES.rule("C20", "R20j", "the worker uses the glyph map's rows as the generator wrote them (names included)", floor=1)
+def r20j(model: Model, rr: RuleResult):
+    fi = model.func("write_font", "main")
+    cfg = cfg_of(fi)
+    ins = [c for c in calls_in(fi) if callee_tail(c) == "_inputs"]
+    if len(ins) != 1 or len(ins[0].args) < 2:
+        raise AnalysisError("write_font.main: _inputs(font_config, <glyph mappings>) not found")
+    _, exprs = expr_closure(cfg, cfg.node_for(ins[0]), ins[0].args[1])
+    parse = [c for e in exprs for c in ast.walk(e) if isinstance(c, ast.Call) and callee_tail(c) in ("parse_csv", "load_from")]
+    rewrites = [c for e in exprs for c in ast.walk(e) if isinstance(c, ast.Call) and callee_tail(c) in ("replace", "_replace", "GlyphMapping") and any(k.arg in ("glyph_name", "codepoints", "svg_file", "bitmap_file") for k in c.keywords)]
+    if rewrites:
+        rr.bad(fi, ins[0], f"write_font.main rewrites glyph-map rows before use ({short(rewrites[0], 70)}): what a custom --glyphmap_generator decided (glyph names, codepoints) is "
+               f"silently replaced", construct=f"write_font.main: glyph map rows rewritten by {short(rewrites[0].func)}")
+    elif parse:
+        rr.ok("write_font.main hands the parsed glyph map to _inputs as it is")
+    else:
+        rr.bad_shape(fi, ins[0], "the glyph mappings given to _inputs do not come from glyphmap.parse_csv", construct="write_font.main: glyph map source")
